@@ -64,7 +64,8 @@ CHECKS["C12"] = dict(
     text="Tracker.tla: the fold over event items (code-shaped) is model-checked against the arg-min / most-recent definition over "
          "the whole history for every bounded history (NaN, ties, infeasible, missing functions, gradient items, untracked sources, "
          "sign-flipping transform, tolerance None); every history is emitted on a real Plan with a tracker handler and the kept "
-         "result read back after each event; real BasicOptimizer runs (SLSQP/COBYLA, maximisation, NaN first) are validated too.",
+         "result read back after each event; real BasicOptimizer runs (SLSQP/COBYLA, maximisation, NaN first) are validated too."
+         " Attached specification Basic.tla (BasicOptimizer protocol: callbacks, several run() calls, function cache, budget, tracked best, exit codes, output redirection, descriptors) is model-checked and replayed into the real BasicOptimizer in the same check; this check reports the rejections whose clause it owns.",
     note="Bounded histories; violations chosen 0 or 10x tolerance; ties accept any minimiser.",
     design="4 (C12)")
 CHECKS["C19"] = dict(
@@ -106,7 +107,9 @@ CHECKS["C15"] = dict(
          "order (handlers of the emitting plan, ancestors, observers), the abort latch, propagation of a nested abort and termination "
          "(liveness under weak fairness) for every plan shape x run length x failure x budget x abort raised at every delivery of every "
          "emission and at every evaluator call; every scenario is executed on real plans and the recorded stream is replayed action by "
-         "action against the model (Trace_C15, silent steps for unlogged transitions), including exit codes and refusal of later steps.",
+         "action against the model (Trace_C15, silent steps for unlogged transitions), including exit codes and refusal of later steps; "
+         "every optimizer-step scenario also with optimizer.stdout redirection active."
+         " Attached specification Basic.tla (BasicOptimizer protocol: callbacks, several run() calls, function cache, budget, tracked best, exit codes, output redirection, descriptors) is model-checked and replayed into the real BasicOptimizer in the same check; this check reports the rejections whose clause it owns.",
     note="Bounded runs (K<=2 outer, 1 inner evaluation quick); scripted optimizer back-end; 2 handlers per plan and 2 observers.",
     design="4 (C15)")
 
@@ -115,7 +118,8 @@ CHECKS["C14"] = dict(
          "evaluation failed, failing results delivered, documented exits, for every request pattern x failing index x failure class "
          "(threshold, emptied filter of each of the four kinds, stddev estimator, perturbations, all-NaN with min_success 0, raising "
          "evaluator) x max_functions x step kind x NaN tolerance x transforms; every scenario runs on a real plan, the recorded "
-         "evaluations and exit are replayed against the model (Trace_C14). The abort/exit-code interplay is covered by the C15 model.",
+         "evaluations and exit are replayed against the model (Trace_C14). The abort/exit-code interplay is covered by the C15 model."
+         " Attached specification Basic.tla (BasicOptimizer protocol: callbacks, several run() calls, function cache, budget, tracked best, exit codes, output redirection, descriptors) is model-checked and replayed into the real BasicOptimizer in the same check; this check reports the rejections whose clause it owns.",
     note="Scripted back-end; bounded run length (K<=2 quick, <=4 thorough); parallel batches covered by seeded-change experiments only.",
     design="4 (C14)")
 
@@ -124,15 +128,18 @@ CHECKS["C18"] = dict(
          "(sum one, ratios preserved), clamped thresholds, broadcast lengths and ordered bounds over three families (weights/thresholds; "
          "bounds/masks/perturbation types/magnitudes in scalar, vector, wrong-length, crossed and infinite forms; constraint shapes); each "
          "is validated by EnOptConfig, dumped to JSON and re-validated, validated again as an object, and every attribute and array "
-         "reachable from the result is mutation-tested; Trace_C18 compares all projections with the spec.",
-    note="Re-validation without transforms context; dyadic magnitudes; option dictionaries are not mutation-tested.",
+         "reachable from the result is mutation-tested; the same with a variable transform in the validation context (ScaledCanon: "
+         "bounds and magnitudes in the optimizer domain) reached from the raw dictionary, from the dumped plain validation and twice "
+         "from sections validated beforehand as objects, which must stay untouched; Trace_C18 compares all projections with the spec.",
+    note="Dyadic magnitudes, scales and offsets; option dictionaries are not mutation-tested.",
     design="4 (C18)")
 
 CHECKS["C17"] = dict(
     text="SamplerLayout.tla: index map from an abstract point sequence to Sample[r][p][v]; TLC checks zeros outside handled variables, "
          "point integrity, shared-identical and distinct-points for every R,P,V<=3 x mask x shared, and finds the counterexample for the "
          "as-is transposed layout; every scenario calls generate_samples() twice on real samplers of all six methods (single and two "
-         "samplers); QMC points are re-created from an identically seeded engine; Trace_C17 checks shape, zeros, range, shared/per-"
+         "samplers) and observes the samplers an ensemble evaluator creates (fixed variable on top of the assignment) through a recording "
+         "stand-in plug-in; QMC points are re-created from an identically seeded engine; Trace_C17 checks shape, zeros, range, shared/per-"
          "realization, point integrity and Latin-hypercube stratification.",
     note="Distributional quality is not examined; reference points used only when they demonstrably are the ones drawn.",
     design="4 (C17)")
